@@ -303,6 +303,41 @@ func c13Gen(t *rapid.T, rec *evid.Recorder) c13Case {
 		return c13Case{Kind: "open-block", Orig: orig, Src: orig[:cut]}
 	default:
 		tree := g.Program(6)
+		// statement pairs (A, B): A ends in every kind of expression end, B begins
+		// with `(` or `[`; in smart mode a line break between them separates them
+		for i, n := 0, r.Intn(4, "npairs"); i < n; i++ {
+			var a *ir.Node
+			x, y := ir.N(ir.Ident, r.Ident()), ir.N(ir.Ident, r.Ident())
+			switch r.Intn(10, "pairA") {
+			case 0:
+				a = ir.N(ir.ExprStmt, "", x)
+			case 1:
+				a = ir.N(ir.ExprStmt, "", ir.N(ir.Call, "", x, y))
+			case 2:
+				a = ir.N(ir.Let, r.Ident(), ir.N(ir.Index, "", x, ir.N(ir.Num, "0")))
+			case 3:
+				a = ir.N(ir.ExprStmt, "", ir.N(ir.Assign, "=", ir.N(ir.Ident, r.Ident()), ir.N(ir.Index, "", ir.N(ir.Index, "", x, y), ir.N(ir.Ident, r.Ident()))))
+			case 4:
+				a = ir.N(ir.ExprStmt, "", ir.N(ir.Member, r.Ident(), x))
+			case 5:
+				a = ir.N(ir.Let, r.Ident(), ir.N(ir.Array, "", x, y))
+			case 6:
+				a = ir.N(ir.ExprStmt, "", ir.N(ir.Postfix, "++", x))
+			case 7:
+				a = ir.N(ir.Let, r.Ident(), ir.N(ir.Binary, "+", x, ir.N(ir.Num, "1")))
+			case 8:
+				a = ir.N(ir.Let, r.Ident(), ir.N(ir.Unary, "-", x))
+			default:
+				a = ir.N(ir.Let, r.Ident(), gen.StrOf("s", "'"))
+			}
+			var b *ir.Node
+			if r.Bool("pairB") {
+				b = ir.N(ir.ExprStmt, "", ir.N(ir.Call, "", ir.N(ir.Member, r.Ident(), ir.N(ir.Array, "", ir.N(ir.Num, "1"), y)), ir.N(ir.Ident, r.Ident())))
+			} else {
+				b = ir.N(ir.ExprStmt, "", ir.N(ir.Call, "", ir.N(ir.Member, r.Ident(), ir.N(ir.Binary, "||", y, ir.N(ir.Ident, r.Ident())))))
+			}
+			tree.Kids = append(tree.Kids, a, b)
+		}
 		opt := layout.Options{Random: true, ASI: true, SmartASI: true, Comments: r.Bool("comments")}
 		src, toks := layout.Source(r, tree, opt)
 		var b strings.Builder
